@@ -15,7 +15,11 @@ static FILE* vh_out = stdout;
 // 32-bit word as two 16-bit halves (TLC integers are 32-bit signed)
 static inline void vh_w(const char* k, uint32_t v) { fprintf(vh_out, "\"%s\":{\"h\":%u,\"l\":%u}", k, v >> 16, v & 0xffff); }
 static inline void vh_i(const char* k, long v) { fprintf(vh_out, "\"%s\":%ld", k, v); }
-static inline void vh_s(const char* k, const char* v) { fprintf(vh_out, "\"%s\":\"%s\"", k, v); }
+static inline void vh_s(const char* k, const char* v) {      // JSON-escaped
+    fprintf(vh_out, "\"%s\":\"", k);
+    for (const unsigned char* p = (const unsigned char*)v; *p; p++) { if (*p == '"' || *p == '\\') { fputc('\\', vh_out); fputc(*p, vh_out); } else if (*p < 0x20 || *p > 0x7e) fprintf(vh_out, "\\u%04x", *p); else fputc(*p, vh_out); }
+    fputc('"', vh_out);
+}
 #define VH_C fputc(',', vh_out)
 #define VH_B fputc('{', vh_out)
 #define VH_E fputs("}\n", vh_out)
